@@ -196,6 +196,13 @@ def cmd_campaign(tier: str, verif_seed: int, workers: int) -> int:
         rest.sort(key=lambda c: (not c[1].startswith('heavy'), c[3][0]))
         chunks += rest
         futures = [pool.submit(campaign.run_chunk, c) for c in chunks] if harness_problem is None else []
+        if harness_problem is None:
+            from sim import hyp
+
+            for kind, (n_chunks, n_examples) in cfg.get('hyp', {}).items():
+                for k in range(n_chunks):
+                    hseed = campaign.run_seed_of(verif_seed, 'hypothesis-' + kind, k)
+                    futures.append(pool.submit(hyp.hypothesis_chunk, (hseed, kind == 'heavy', n_examples, deadline)))
         for fut in concurrent.futures.as_completed(futures):
             part = fut.result()
             bad = part['bad']
